@@ -640,12 +640,12 @@ func (obj *SparseInt64Vector) ITERATOR_FROM(i int) *SparseInt64VectorIterator {
   return &r
 }
 func (obj *SparseInt64Vector) JOINT_ITERATOR(b ConstVector) *SparseInt64VectorJointIterator {
-  r := SparseInt64VectorJointIterator{obj.ITERATOR(), b.ConstIterator(), -1, Int64{}, nil}
+  r := SparseInt64VectorJointIterator{obj.ITERATOR(), b.ConstIterator(), -1, Int64{}, nil, false}
   r.Next()
   return &r
 }
 func (obj *SparseInt64Vector) JOINT3_ITERATOR(b, c ConstVector) *SparseInt64VectorJoint3Iterator {
-  r := SparseInt64VectorJoint3Iterator{obj.ITERATOR(), b.ConstIterator(), c.ConstIterator(), -1, Int64{}, nil, nil}
+  r := SparseInt64VectorJoint3Iterator{obj.ITERATOR(), b.ConstIterator(), c.ConstIterator(), -1, Int64{}, nil, nil, false}
   r.Next()
   return &r
 }
@@ -718,13 +718,13 @@ type SparseInt64VectorJointIterator struct {
   idx int
   s1 Int64
   s2 ConstScalar
+  ok bool
 }
 func (obj *SparseInt64VectorJointIterator) Index() int {
   return obj.idx
 }
 func (obj *SparseInt64VectorJointIterator) Ok() bool {
-  return !(obj.s1.ptr == nil || obj.s1.GetInt64() == int64(0)) ||
-         !(obj.s2 == nil || obj.s2.GetInt64() == int64(0))
+  return obj.ok
 }
 func (obj *SparseInt64VectorJointIterator) Next() {
   ok1 := obj.it1.Ok()
@@ -745,6 +745,9 @@ func (obj *SparseInt64VectorJointIterator) Next() {
       obj.s2 = obj.it2.GetConst()
     }
   }
+  // the iterator is valid as long as one of the vectors delivered an entry,
+  // regardless of its value
+  obj.ok = obj.s1.ptr != nil || obj.s2 != nil
   if obj.s1.ptr != nil {
     obj.it1.Next()
   }
@@ -778,6 +781,7 @@ func (obj *SparseInt64VectorJointIterator) Clone() *SparseInt64VectorJointIterat
   r.idx = obj.idx
   r.s1 = obj.s1
   r.s2 = obj.s2
+  r.ok = obj.ok
   return &r
 }
 func (obj *SparseInt64VectorJointIterator) CloneConstJointIterator() VectorConstJointIterator {
@@ -796,14 +800,13 @@ type SparseInt64VectorJoint3Iterator struct {
   s1 Int64
   s2 ConstScalar
   s3 ConstScalar
+  ok bool
 }
 func (obj *SparseInt64VectorJoint3Iterator) Index() int {
   return obj.idx
 }
 func (obj *SparseInt64VectorJoint3Iterator) Ok() bool {
-  return !(obj.s1.ptr == nil || obj.s1.GetInt64() == int64(0)) ||
-         !(obj.s2 == nil || obj.s2.GetInt64() == int64(0)) ||
-         !(obj.s3 == nil || obj.s3.GetInt64() == int64(0))
+  return obj.ok
 }
 func (obj *SparseInt64VectorJoint3Iterator) Next() {
   ok1 := obj.it1.Ok()
@@ -839,6 +842,9 @@ func (obj *SparseInt64VectorJoint3Iterator) Next() {
       obj.s3 = obj.it3.GetConst()
     }
   }
+  // the iterator is valid as long as one of the vectors delivered an entry,
+  // regardless of its value
+  obj.ok = obj.s1.ptr != nil || obj.s2 != nil || obj.s3 != nil
   if obj.s1.ptr != nil {
     obj.it1.Next()
   }
